@@ -127,3 +127,17 @@ PROPS["C17"] = dict(
                   "rejection sampling: equal pre-image counts of equiprobable chunks give a uniform result (counting argument, not mechanised)"],
     explanation="range, per-iteration single draw of upper_256 bytes and `result = top upper_2 bits of the last chunk + 1` are proved for every order; exact uniformity is the bounded histogram plus the counting argument; determinism is purity (the functions read nothing but their arguments and the stream)",
 )
+
+PROPS["C04"] = dict(
+    level="proof",
+    functions=["ecdsa.rfc6979.bits2int", "ecdsa.rfc6979.bits2octets", "ecdsa.rfc6979.generate_k", "ecdsa.util.number_to_string", "ecdsa.util.number_to_string_crop",
+               "ecdsa.util.orderlen", "ecdsa.keys.SigningKey.sign_digest_deterministic", "ecdsa.keys.SigningKey.sign_digest", "ecdsa.keys.SigningKey.sign_number",
+               "ecdsa.ecdsa.Private_key.sign", "ecdsa.keys._truncate_and_convert_digest"],
+    lemmas=[],
+    bounded=[_B("ecdsa.rfc6979.generate_k", "independent RFC 6979 implementation (spec/rfc6979.py): orders 2..80 (quick) / 2..600 (thorough) + 6 large orders x 3 keys x 7 digest lengths x 4 hashes (4..64-byte outputs) x extra entropy x retry_gen 0..2"),
+             _B("ecdsa.rfc6979.bits2int", "orders 2..300 + large x digest lengths x 4 patterns"), _B("ecdsa.rfc6979.bits2octets", "same")],
+    min_obligations=20,
+    trusted_base=["HMAC is an uninterpreted function of (key, message) with output length digest_size; hmac objects accumulate their message",
+                  "RFC 6979 section 3.2 step h as the state functions K_j, V_j, W_j,i, T_j,i, cand_j of contracts/rfc6979.py (written from the RFC)", "byte-string axioms, shr/mod axioms (cross-checked against CPython)"],
+    explanation="generate_k is proved equal to the RFC 6979 candidate sequence by loop invariants over ghost round counters (outer step h loop and inner h.2 loop), for every order >= 2, key, digest length, hash output length and retry count; the retry loop of sign_digest_deterministic skips one more candidate per RSZeroError and returns the standard signature for that nonce",
+)
